@@ -123,7 +123,16 @@ def cases_(draw):
         dumps.append({'mode': mode, 'update_keys': ukeys, 'rows': rows, 'types': dict(cur_types),
                       'batch': draw(st.sampled_from([None, 1, 2, 1000])), 'bloom': draw(st.sampled_from([None, True, False])),
                       'updated_column': draw(st.booleans())})
-    return {'pk': pk, 'fields': fields, 'dumps': dumps, 'shared_conf': draw(st.integers(0, 3)) == 0}
+    c = {'pk': pk, 'fields': fields, 'dumps': dumps, 'shared_conf': draw(st.integers(0, 3)) == 0}
+    if 'v_str' in vnames and draw(st.integers(0, 2)) == 0:
+        # the schema says that only 'n/a' stands for a missing value: an empty string is an ordinary value then
+        c['missing_values'] = ['n/a']
+        for d_ in dumps:
+            if d_.get('types', {}).get('v_str', 'string') == 'string':
+                for r_ in d_['rows']:
+                    if r_.get('v_str') is not None and draw(st.integers(0, 2)) == 0:
+                        r_['v_str'] = ''
+    return c
 
 
 def cases(tier):
@@ -208,6 +217,8 @@ def check(case, ctx):
             if fields != case['fields']:
                 classes.append('rewrite-with-retyped-column')
         res = dict(res, fields=fields)
+        if case.get('missing_values'):
+            res['schema_extra'] = {'missingValues': list(case['missing_values'])}
         other_first = bool(di % 2)
         pkg_ = [other, res] if other_first else [res, other]
         desc = gen.descriptor_of(pkg_)
